@@ -79,8 +79,22 @@ def relocsDump (img : Option Img) (k : String) : String :=
       s!"ok image={ref r} blocks=[{blk}] flat=[{join ((Relocs.flat data).map fun p => s!"{p.1}:{p.2}")}]"
     | o, _ => refOut o
 
+/-- `secname <k> <i>`: `SectionHeader::name()` (`util::parsen`: the eight `Name` bytes without trailing NULs
+when they are UTF-8, else all eight bytes as the error value) and `name_bytes()` (`util::trimn`) of section `i` -/
+-- src: image.rs:IMAGE_SECTION_HEADER::name, name_bytes; util/mod.rs:parsen, trimn
+def secName (img : Option Img) (k i : String) : String :=
+  withView img k fun v =>
+    if num i < numberOfSections v.b then
+      let o := secTable v.b + 40 * num i
+      let name := (List.range 8).map fun j => byteAt v.b (o + j)
+      let hx (l : List Nat) : String := hex (l.map (·.toUInt8)).toArray
+      let t := Pelite.Pe.trimn name
+      (if (Resources.utf8Chars t).isSome then s!"ok str {hx t}" else s!"ok raw {hx name}") ++ s!" bytes={hx t}"
+    else "nosec"
+
 def dispatchJson : Handler := fun st fam a =>
   match fam, a with
+  | "secname", [k, i] => some (secName st.img k i)
   | "jsonsub", [k] => some (jsonSub st.img k)
   | "jsonsub", [k, field] => some (jsonField st.img k field)
   | "jsontext", [k, field] => some (jsonText st.img k field)
